@@ -8,7 +8,7 @@ CONSTANTS
   RangeSet <- NoRanges
   Vals <- ValsTiny
   MergeKeys <- KeysTwo
-  Operands <- OperandsSmall
+  Operands <- OperandsTwo
   MaxCount = 2
   Readers = {1}
   Iters = {}
